@@ -25,7 +25,7 @@ RULE = ('random template trees (depth <= 4) over table/point/constant/function(p
         'atomic multi-channel, parallel-channel (constant and time dependent), scalar and pulse arithmetic; dyadic '
         'parameter values; for-loop range sweeps over small start/stop/step (thorough tier: exhaustive start -4..4, stop '
         '-4..5, step +-{1,2,3} under 9 loop-carrying wrappers, plus fully symbolic ranges); ArithmeticPT with time '
-        'dependent scalars (Python oracle only); a small malformed stream (missing parameter).  Observation: '
+        'dependent scalars (+/- embedded in the model, * Python oracle only); a small malformed stream (missing parameter).  Observation: '
         'integral/initial_values/final_values/duration evaluated exactly (sympy rationals), the real program of '
         'create_program integrated leaf by leaf with an open 3-point rule on a 1/16 grid (exact for piecewise cubics with '
         'breakpoints on the grid; cross-checked on a 1/8 grid), its first and last samples, and the program of '
@@ -46,7 +46,8 @@ ASSUMPTIONS = [
     'verifies wf on every generated strict case',
     'the theorems take "the symbolic value evaluates to a number" as a hypothesis (definedness is not proved)',
     'function atoms are polynomials in t (degree <= 3); transcendental atoms are not covered',
-    'time dependent scalar operands of ArithmeticPT are outside the Coq model (covered by a Python-oracle stream); '
+    'time dependent scalar operands of ArithmeticPT: + and - are embedded in the Coq model (pulse-with-pulse arithmetic with '
+    'a polynomial FunctionPT per scalar channel), * is outside the model (Python-oracle stream), / is not covered; '
     'measurements/constraints are outside the model',
     'loop index names are distinct from parameter names and from each other (no capture in sympy.subs)',
     'the end voltage of a table/point pulse is the value of its last entry (for a trailing hold step that level is '
@@ -349,8 +350,13 @@ def names_of(case):
             walk(t['b'])
         elif k in ('arithl', 'arithr'):
             s = t['s']
-            for e in ([s['all']] if 'all' in s else s['map'].values()):
-                walk_e(e)
+            if 'allt' in s or 'mapt' in s:
+                for cf in ([s['allt']] if 'allt' in s else s['mapt'].values()):
+                    for e in cf:
+                        walk_e(e)
+            else:
+                for e in ([s['all']] if 'all' in s else s['map'].values()):
+                    walk_e(e)
             walk(t['b'])
         elif k == 'aatom':
             walk(t['l']); walk(t['r'])
@@ -420,6 +426,14 @@ def g_pt(t, nm):
     if k == 'par':
         return '(Par %s %s)' % (g_pt(t['b'], nm), g_list('(%s, %s)' % (g_chan(c), g_list(g_expr(x, nm) for x in cf))
                                                           for c, cf in t['ov'].items()))
+    if k in ('arithl', 'arithr') and ('allt' in t['s'] or 'mapt' in t['s']):
+        # time dependent scalar (+ / - only): embedded as pulse-with-pulse arithmetic, see Corr.arith_tl
+        s = t['s']
+        cfs = {c: s['allt'] for c in G.out_channels(t['b'])} if 'allt' in s else s['mapt']
+        gl = g_list('(%s, %s)' % (g_chan(c), g_list(g_expr(x, nm) for x in cf)) for c, cf in cfs.items())
+        if k == 'arithl':
+            return '(arith_tl %s %s %s)' % (g_pt(t['b'], nm), OPS[t['op']], gl)
+        return '(arith_tr %s %s %s)' % (gl, OPS[t['op']], g_pt(t['b'], nm))
     if k in ('arithl', 'arithr'):
         s = t['s']
         sc = '(SAll %s)' % g_expr(s['all'], nm) if 'all' in s else '(SMap %s)' % g_dict(s['map'], nm)
@@ -442,8 +456,8 @@ def g_real(x):
 def to_coq(case, obs):
     if 'crash' in obs or 'hang' in obs:
         return 'CCrash'
-    if case.get('kind') == 'tdarith':
-        return 'CExtern'          # time dependent ArithmeticPT scalars are not modelled: Python oracle only (py_spec)
+    if case.get('kind') == 'tdarith' and not G.embeddable(case['pt']):
+        return 'CExtern'          # time dependent scalar with * : not modelled, Python oracle only (py_spec)
     nm = names_of(case)
     rho = g_list('(%d%%N, %s)' % (nm[n], gQ(F(v))) for n, v in sorted(case['params'].items()))
     chobs = []
@@ -485,8 +499,7 @@ def histogram_keys(case, obs):
     keys = ['depth:%d' % d] + ['node:' + k for k in sorted(set(acc))]
     keys.append('src:' + case.get('src', 'random'))
     if case.get('kind') == 'tdarith':
-        keys.append('obs:crash' if ('crash' in obs or 'hang' in obs) else 'obs:real=' + (obs['real'] if obs['real'] in ('err', 'none') else 'ok'))
-        return keys
+        keys.append('tdarith:' + ('embedded-in-model' if G.embeddable(case['pt']) else 'python-oracle-only'))
     gi, gt = G.guard_flags(case)
     keys.append('guards:%s%s' % ('' if gi else 'initial-head-violated ', '' if gt else 'final-tail-violated') if not (gi and gt)
                 else 'guards:all-hold')
@@ -661,7 +674,7 @@ MANIFEST = {
                   'the denotation; the classifier of known findings is cross-checked against the proven guards.',
     'level_note': 'Trusted: Coq kernel, sympy evaluation of Sum/Max/ceiling/floor/sign/Piecewise/subs/integrate '
                   '(modelled semantically, validated per case), harness integrator and generators, the Python oracle of '
-                  'the time-dependent-scalar stream (not modelled in Coq). Five known deviations of the unchanged code '
+                  'the multiplicative part of the time-dependent-scalar stream (not modelled in Coq). Five known deviations of the unchanged code '
                   'are listed as known findings (initial-head-empty-or-jump, final-tail-empty, '
                   'table-constant-detection, arith-over-parallel-order, negative-duration-empty); five defects were '
                   'repaired in /repo (empty-range integral, bare sympy integral of ArithmeticPT, time dependent '
